@@ -48,6 +48,16 @@ Clauses(S, P, hasPrev, TauSet) ==   \* S = this solve's observation, P = previou
       c05b == IF S.tau \in 1..ne /\ MetricOK THEN {} ELSE {<<"C05", "metric-rows", Len(metricRows)>>}
       c05c == IF BagOf(S.pep_sent_cons \o S.pep_sent_lmis) = BagOf(S.sent) THEN {}
               ELSE {<<"C05", "pep-tracking-differs-from-wrapper", 0>>}
+      \* what the user declared through the public API, recorded by the driver AT DECLARATION TIME (not read back from the
+      \* library's lists): every such item reaches the solver as often as it was declared, with the entries as written
+      UD == S.user_decl
+      udCount(i) == Cardinality({k \in 1..Len(UD) : UD[k].i = i})
+      sentCount(i) == Cardinality({k \in 1..Len(S.sent) : S.sent[k] = i})
+      udMissing == {UD[k].i : k \in {j \in 1..Len(UD) : sentCount(UD[j].i) # udCount(UD[j].i)}}
+      udAltered == {UD[k].i : k \in {j \in 1..Len(UD) : UD[j].k = "lmi" /\
+                       [e \in 1..Len(UD[j].e) |-> Flatten(DE(UD[j].e[e]))] # vecs[UD[j].i]}}
+      c05f == (IF udMissing = {} THEN {} ELSE {<<"C05", "user-declared-item-not-sent-as-often-as-declared", CHOOSE i \in udMissing : TRUE>>})
+              \cup (IF udAltered = {} THEN {} ELSE {<<"C05", "matrix-sent-differs-from-the-matrix-declared", CHOOSE i \in udAltered : TRUE>>})
       \* ---------------- C05: the native cvxpy problem denotes the sent list
       NatL == S.native
       msz == S.msizes
@@ -101,10 +111,10 @@ Clauses(S, P, hasPrev, TauSet) ==   \* S = this solve's observation, P = previou
                  ELSE /\ walk.pos = Len(NatL)
                       /\ NatL[Len(NatL)].kind = "ineq" /\ Len(NatL[Len(NatL)].rows) = 1
                       /\ LET r == NatL[Len(NatL)].rows[1] IN
-                            /\ RowV(r) \in {VNeg(UnitN(S.tau)), UnitN(S.tau)}
+                            /\ RowV(r) = VNeg(UnitN(S.tau))                       \* (optimum - tol) - tau <= 0
                             /\ r.c.t = "x"
                             /\ \E k \in 1..Len(S.phases) : S.phases[k].ev = "prepare_heuristic" /\
-                                   Abs(Abs(r.c.v[1]) - Abs(S.phases[k].wc - S.phases[k].tol)) <= 2
+                                   Abs(r.c.v[1] - (S.phases[k].wc - S.phases[k].tol)) <= 2
       hasNative == Len(NatL) > 0
       c05d == IF ~hasNative THEN {}
               ELSE IF ~(Len(NatL) >= 1 /\ PsdOn(NatL[1], ne, np)) THEN {<<"C05", "native-gram-psd", 0>>}
@@ -353,7 +363,7 @@ Clauses(S, P, hasPrev, TauSet) ==   \* S = this solve's observation, P = previou
               ELSE IF prev.np = np /\ NormSent(prev) # NormSent(S) THEN {<<"C11", "back-ends-were-sent-different-constraint-lists", 0>>} ELSE {}
       cXa == IF S.crash # "" THEN {<<"ALL", "solve-raises: " \o S.crash, 0>>} ELSE {}
       info == IF doCert THEN {<<"INFO", "max-identity-error", maxKeyErr>>} ELSE {}
-  IN info \cup cXa \cup c05a \cup c05b \cup c05c \cup c05d \cup c05e
+  IN info \cup cXa \cup c05a \cup c05b \cup c05c \cup c05d \cup c05e \cup c05f
      \cup c01a \cup c01b \cup c01c \cup c01d \cup c01e \cup c01f \cup c01g
      \cup c02a \cup c02b \cup c02c \cup c02d \cup c02e \cup c02f \cup c02g \cup c02h \cup c02i \cup c02j
      \cup c14a \cup c14b \cup c14c \cup c14d \cup c14e
